@@ -477,12 +477,15 @@ def autoforwards_function(func, args, kwargs):
         examined = _being_examined.funcs
     except AttributeError:
         examined = _being_examined.funcs = []
+    # arguments whose value is not known do not tell two examinations apart:
+    # a function that passes itself one more argument at every level
+    # (def f(*args): return f(0, *args)) would otherwise never be recognized
     key = (
         id(func),
-        tuple(None if isinstance(a, Unknown) else id(a) for a in args),
-        tuple(sorted(
-            (k, None if isinstance(a, Unknown) else id(a))
-            for k, a in kwargs.items())),
+        frozenset(id(a) for a in args if not isinstance(a, Unknown)),
+        frozenset(
+            (k, id(a)) for k, a in kwargs.items()
+            if not isinstance(a, Unknown)),
         )
     if key in examined:
         # func forwards to itself, directly or through other functions
